@@ -26,7 +26,8 @@ import vlib
 THEOREMS = ["C15_init", "C15_init_rejects_when_repaired", "C15_init_rejects_refuted", "C15_add", "C15_remove_last",
             "C15_sorted", "C15_established_only_if_synced", "C15_established_running_when_repaired",
             "C15_established_running_refuted", "C15_closes_less_preferred", "C15_never_upward", "C15_failover",
-            "C15_no_failover_while_established", "C15_defined", "C15_full_when_repaired", "C15_refuted"]
+            "C15_no_failover_while_established", "C15_defined", "C15_full_when_repaired", "C15_refuted",
+            "C15_mgr_cb_translated", "C15_mgr_cb_translated_current"]
 
 FSM_STATES = ["CONNECTING", "ESTABLISHED", "RESET", "SYNC", "FAST_RECONNECT", "ERROR_NO_DATA_AVAIL",
               "ERROR_NO_INCR_UPDATE_AVAIL", "ERROR_FATAL", "ERROR_TRANSPORT"]
